@@ -243,6 +243,10 @@ class NestedAsyncEvent(NestedEvent):
         for state_path in ordered_states:
             state_name = machine.state_cls.separator.join(state_path)
             if state_name not in done and state_name in self.transitions:
+                # an earlier transition of this event may have left this state already
+                global_name = machine.state_cls.separator.join(machine.get_global_name(join=False) + state_path)
+                if not machine.is_state(global_name, model, allow_substates=True):
+                    continue
                 event_data.state = machine.get_state(state_name)
                 event_data.source_name = state_name
                 event_data.source_path = copy.copy(state_path)
@@ -565,6 +569,9 @@ class HierarchicalAsyncMachine(HierarchicalMachine, AsyncMachine):
                                                 self.state_cls.separator)
         res = {}
         for key, value in _state_tree.items():
+            # an earlier transition of this event may have left this branch already
+            if not self.is_state(self.get_global_name(key), model, allow_substates=True):
+                continue
             if value:
                 with self(key):
                     tmp = await self._trigger_event_nested(event_data, _trigger, value)
